@@ -94,6 +94,7 @@ type hist struct {
 	bigSel   bool
 	rejected bool
 	removed  bool
+	lastSel  string // rendering of the previous op's Select output ("" if the previous op was not a Select)
 }
 
 type env struct {
@@ -166,6 +167,9 @@ func (e *env) newHist() *hist {
 }
 
 func (h *hist) after(e *env, term string, entry any) {
+	if !strings.HasPrefix(term, "C19.CSelect") {
+		h.lastSel = ""
+	}
 	cnt := h.mp.CountTx()
 	h.terms = append(h.terms, emit.Pair(term, emit.ZI(int64(cnt))))
 	h.log = append(h.log, entry)
@@ -263,7 +267,12 @@ func (h *hist) selectOp(e *env) {
 	entry := map[string]any{"op": "select", "out": fmt.Sprint(ids), "panicked": panicked}
 	if h.premise {
 		h.oracle(e, out, panicked, entry)
+		if h.lastSel != "" && h.lastSel != fmt.Sprint(ids) {
+			e.run.Violate("C19:select-not-idempotent", "a repeated Select with nothing in between yielded a different sequence: "+h.lastSel+" then "+fmt.Sprint(ids),
+				map[string]any{"history": append(append([]any{}, h.log...), entry)})
+		}
 	}
+	h.lastSel = fmt.Sprint(ids) + " "
 	h.after(e, fmt.Sprintf("C19.CSelect %s %s", emit.List(items), emit.Bool(panicked)), entry)
 }
 
